@@ -8,13 +8,27 @@ Trace == Doc.cases
 VARIABLES idx, cnt
 vars == <<idx, cnt>>
 
+\* The command-line tool may be asked to filter the structure first (c.opts, a sequence of option names):
+\*   "--remove-isolated"     the structure printed and decomposed is the one made of the stems of >= 2 pairs;
+\*   "--remove-pseudoknots"  it is a pseudoknot-free sub-structure written with round brackets only (WHICH pairs
+\*                           stay is the business of C12); the elements must decompose exactly the structure whose
+\*                           dot-bracket the tool prints.
+HasOpt(c, o) == "opts" \in DOMAIN c /\ \E k \in 1..Len(c.opts) : c.opts[k] = o
+LongStemsOnly(m) == UNION { RegionPairs(r) : r \in { x \in Regions(m) : x[3] >= 2 } }
+NonCrossing(m) == \A p, q \in m : ~CrossP(p, q)
+OnlyRoundBrackets(db) == \A k \in 1..Len(db) : db[k] \in {"(", ")", "."}
 Verdict(c) ==
-  LET m == PairSet(c.pairs) IN
-  IF ~IsMatching(m, c.n) \/ Len(c.seq) # c.n THEN <<"fail", "InputIsMatching", "harness">>
+  LET m0 == PairSet(c.pairs)
+      m1 == IF HasOpt(c, "--remove-isolated") THEN LongStemsOnly(m0) ELSE m0 IN
+  IF ~IsMatching(m0, c.n) \/ Len(c.seq) # c.n THEN <<"fail", "InputIsMatching", "harness">>
   ELSE IF c.el.err # "" THEN <<"fail", "NoException", c.source>>
   ELSE IF c.db.err # "" THEN <<"fail", "NoException", "dot_bracket">>
   ELSE IF Len(c.db.db) # c.n \/ ~AlphabetOK(c.db.db) THEN <<"fail", "DotBracketLossless", "dot_bracket">>
-  ELSE IF Decode(c.db.db).pairs # m THEN <<"fail", "DotBracketLossless", "dot_bracket">>
+  ELSE IF ~Decode(c.db.db).balanced THEN <<"fail", "DotBracketLossless", "dot_bracket">>
+  ELSE LET m == Decode(c.db.db).pairs IN
+  IF ~HasOpt(c, "--remove-pseudoknots") /\ m # m1 THEN <<"fail", "DotBracketLossless", "dot_bracket">>
+  ELSE IF HasOpt(c, "--remove-pseudoknots") /\ ~(m \subseteq m1 /\ NonCrossing(m) /\ OnlyRoundBrackets(c.db.db))
+       THEN <<"fail", "FilteredStructurePrinted", c.source>>
   ELSE LET f == ElementsFail(m, c.n, c.seq, c.db.db, c.el) IN
        IF f = "ok" THEN <<"ok">>
        ELSE IF f = "UnpairedCoveredOnce" /\ PairlessHasNoElements(m, c.n, c.el)
